@@ -30,7 +30,9 @@ def printableT (c : Nat) : Bool :=
 def P := printableT
 def G := graphemeExtendT
 
-def hexOfStr (s : Str) : String := hexOfBytes (utf8Encode s)
+/-- lone surrogates (only a hand-written `js` literal can produce them) are shown as U+FFFD -/
+def hexOfStr (s : Str) : String :=
+  hexOfBytes (utf8Encode (s.map fun c => if 0xD800 ≤ c ∧ c ≤ 0xDFFF then 0xFFFD else c))
 
 def strOfHex (h : String) : Option Str :=
   match bytesOfHex h with
@@ -279,6 +281,19 @@ def step (st : St) (line : String) : St × String :=
           else if isData then s!"fail {dataClass s}"
           else s!"fail {if nulOct s then "nul-octal" else "error-mismatch"}"
         (st, s!"{head} {gs} ## {v}")
+  | ["js", h] =>
+    -- browser twin only: value of a string literal given as source text
+    match strOfHex h with
+    | none => (st, "bad-op")
+    | some src =>
+      match jsDecodeStringLiteral src with
+      | some v => (st, hexOfStr v)
+      | none => (st, "syntax-error")
+  | ["tok", h] =>
+    -- browser twin only: script-data tokenizer and pattern scanner on arbitrary text
+    match strOfHex h with
+    | none => (st, "bad-op")
+    | some t => (st, s!"tok={tokShow t} danger={if hasDanger t then 1 else 0}")
   | _ => (st, "bad-op")
 
 def main : IO Unit := runDriver step St.init
